@@ -1,5 +1,5 @@
 //! C07 — Prometheus output reports exactly what was recorded, each sample once (E3 + E1).
-use metrics::{Key, Label, Level, Metadata, Recorder};
+use metrics::{Key, Label, Level, Metadata, Recorder, Unit};
 use metrics_exporter_prometheus::{Matcher, PrometheusBuilder, PrometheusHandle, PrometheusRecorder};
 use std::collections::{BTreeMap, BTreeSet};
 use vcore::driver::{self, CheckDef, Ctx, PartResult, PartSpec};
@@ -18,7 +18,7 @@ enum Op {
     GSet(usize, f64),
     GInc(usize, f64),
     Rec(usize, f64),
-    Describe(usize, &'static str),
+    Describe(usize, &'static str, Option<Unit>),
     Render,
     Upkeep,
 }
@@ -65,9 +65,10 @@ fn alphabet() -> Vec<Op> {
         Op::Rec(5, 0.5),
         Op::Rec(6, 4.0),
         Op::Rec(7, 2.0),
-        Op::Describe(0, "first"),
-        Op::Describe(0, "second"),
-        Op::Describe(5, "hist"),
+        Op::Describe(0, "first", None),
+        Op::Describe(0, "second", Some(Unit::Bytes)),
+        Op::Describe(5, "hist", Some(Unit::Seconds)),
+        Op::Describe(5, "later", None),
         Op::Render,
         Op::Upkeep,
     ]
@@ -102,6 +103,19 @@ struct Model {
     gauges: BTreeMap<(String, Vec<(String, String)>), f64>,
     hists: BTreeMap<(String, Vec<(String, String)>), Vec<f64>>,
     help: BTreeMap<String, String>,
+    unit: BTreeMap<String, Option<Unit>>,
+}
+impl Model {
+    /// the family name a metric name is rendered under: with unit suffixes enabled, the unit of the first description
+    fn fam(&self, name: &str, cfg: Config) -> String {
+        match (cfg, self.unit.get(name)) {
+            (Config::UnitSuffix, Some(Some(u))) => format!("{}_{}", name, u.as_str()),
+            _ => name.to_string(),
+        }
+    }
+    fn base<'a>(&'a self, fam: &'a str, cfg: Config) -> &'a str {
+        self.unit.keys().find(|n| self.fam(n, cfg) == fam).map(|s| s.as_str()).unwrap_or(fam)
+    }
 }
 
 fn apply_real(rec: &PrometheusRecorder, op: Op) {
@@ -111,12 +125,12 @@ fn apply_real(rec: &PrometheusRecorder, op: Op) {
         Op::GSet(k, v) => rec.register_gauge(&mk_key(k), &META).set(v),
         Op::GInc(k, v) => rec.register_gauge(&mk_key(k), &META).increment(v),
         Op::Rec(k, v) => rec.register_histogram(&mk_key(k), &META).record(v),
-        Op::Describe(k, t) => {
+        Op::Describe(k, t, u) => {
             let n = mk_key(k).name().to_string();
             if n.starts_with('c') {
-                rec.describe_counter(n.into(), None, t.into())
+                rec.describe_counter(n.into(), u, t.into())
             } else {
-                rec.describe_histogram(n.into(), None, t.into())
+                rec.describe_histogram(n.into(), u, t.into())
             }
         }
         Op::Render | Op::Upkeep => {}
@@ -139,8 +153,10 @@ fn apply_model(m: &mut Model, op: Op, global: &[(&str, &str)]) {
             *m.gauges.entry(series(k, global)).or_insert(0.0) += v;
         }
         Op::Rec(k, v) => m.hists.entry(series(k, global)).or_default().push(v),
-        Op::Describe(k, t) => {
+        Op::Describe(k, t, u) => {
+            // the first description given for the name is the one that counts, text and unit alike
             m.help.entry(mk_key(k).name().to_string()).or_insert(t.to_string());
+            m.unit.entry(mk_key(k).name().to_string()).or_insert(u);
         }
         Op::Render | Op::Upkeep => {}
     }
@@ -154,21 +170,22 @@ fn compare(fams: &[Family], m: &Model, cfg: Config) -> Result<(), (String, Strin
         return e("series-rendered-more-than-once", format!("{:?}", dups));
     }
     let mut want_fams: BTreeSet<String> = BTreeSet::new();
-    want_fams.extend(m.counters.keys().map(|k| k.0.clone()));
-    want_fams.extend(m.gauges.keys().map(|k| k.0.clone()));
-    want_fams.extend(m.hists.keys().map(|k| k.0.clone()));
+    want_fams.extend(m.counters.keys().map(|k| m.fam(&k.0, cfg)));
+    want_fams.extend(m.gauges.keys().map(|k| m.fam(&k.0, cfg)));
+    want_fams.extend(m.hists.keys().map(|k| m.fam(&k.0, cfg)));
     let got_fams: BTreeSet<String> = fams.iter().map(|f| f.name.clone()).collect();
     if want_fams != got_fams {
         return e("families-differ-from-registered-metrics", format!("rendered families {:?}, registered {:?}", got_fams, want_fams));
     }
     for f in fams {
-        let want_help = m.help.get(&f.name);
+        let base = m.base(&f.name, cfg).to_string();
+        let want_help = m.help.get(&base);
         if f.help.as_ref() != want_help {
             return e("help-is-not-first-description", format!("family {}: HELP {:?}, first description given {:?}", f.name, f.help, want_help));
         }
         match f.ty.as_str() {
             "counter" => {
-                let want: BTreeMap<Vec<(String, String)>, u64> = m.counters.iter().filter(|(k, _)| k.0 == f.name).map(|(k, v)| (k.1.clone(), *v)).collect();
+                let want: BTreeMap<Vec<(String, String)>, u64> = m.counters.iter().filter(|(k, _)| k.0 == base).map(|(k, v)| (k.1.clone(), *v)).collect();
                 let got: BTreeMap<Vec<(String, String)>, String> = f.samples.iter().map(|s| (s.series_labels(), s.value.clone())).collect();
                 if want.len() != got.len() {
                     return e("counter-series-set-wrong", format!("{}: series {:?}, expected {:?}", f.name, got.keys().collect::<Vec<_>>(), want.keys().collect::<Vec<_>>()));
@@ -181,7 +198,7 @@ fn compare(fams: &[Family], m: &Model, cfg: Config) -> Result<(), (String, Strin
                 }
             }
             "gauge" => {
-                let want: BTreeMap<Vec<(String, String)>, f64> = m.gauges.iter().filter(|(k, _)| k.0 == f.name).map(|(k, v)| (k.1.clone(), *v)).collect();
+                let want: BTreeMap<Vec<(String, String)>, f64> = m.gauges.iter().filter(|(k, _)| k.0 == base).map(|(k, v)| (k.1.clone(), *v)).collect();
                 if want.len() != f.samples.len() {
                     return e("gauge-series-set-wrong", format!("{}: {} series, expected {}", f.name, f.samples.len(), want.len()));
                 }
@@ -193,8 +210,8 @@ fn compare(fams: &[Family], m: &Model, cfg: Config) -> Result<(), (String, Strin
                 }
             }
             ty @ ("summary" | "histogram") => {
-                let want: BTreeMap<Vec<(String, String)>, Vec<f64>> = m.hists.iter().filter(|(k, _)| k.0 == f.name).map(|(k, v)| (k.1.clone(), v.clone())).collect();
-                let want_ty = match (cfg, f.name.as_str()) {
+                let want: BTreeMap<Vec<(String, String)>, Vec<f64>> = m.hists.iter().filter(|(k, _)| k.0 == base).map(|(k, v)| (k.1.clone(), v.clone())).collect();
+                let want_ty = match (cfg, base.as_str()) {
                     (Config::GlobalBuckets, _) => "histogram",
                     (Config::OverrideH1, "h_one") => "histogram",
                     _ => "summary",
@@ -321,7 +338,7 @@ fn e3(ctx: &Ctx, res: &mut PartResult, cfg: Config, depth: usize, first: Option<
     for (sig, msg, seq) in fails {
         res.violation(&sig, msg, json!({"seq": seq}));
     }
-    res.sample(json!({"config": format!("{:?}", cfg), "ops": format!("{:?}", [alpha[0], alpha[1], alpha[16], alpha[11], alpha[17], alpha[16]])}));
+    res.sample(json!({"config": format!("{:?}", cfg), "ops": format!("{:?}", [alpha[0], alpha[1], alpha[17], alpha[11], alpha[18], alpha[17]])}));
 }
 
 /// a long history: 200 samples (multi-block buckets) with renders in between
@@ -502,7 +519,7 @@ fn main() {
     driver::main(CheckDef {
         prop: "C07",
         level: "model_checking",
-        rule: "E3: for each of 6 builder configurations (default summaries, global buckets, per-metric override, global labels with one overridden by a key label, custom quantiles, unit suffix) every sequence of the stated depth over 18 operations (counter increment/absolute, gauge set/increment incl. NaN, -0.0, 1e300, histogram record, first/second description, render, run_upkeep; keys incl. equal keys built differently) on a fresh real PrometheusRecorder, plus a final render; every render is done twice (same line set, quantile lines aside), parsed by the strict independent parser and compared with the reference (families, series label sets = global overridden by key, counter totals, gauge bit round trip, _count/_sum conservation, bucket counts, first HELP); a 200-sample multi-block history; E1: all SC interleavings of record() threads with a drainer thread (render, run_upkeep, render), also with 63 samples recorded beforehand (block hand-over) and with a second draining thread (run_upkeep x2, what the periodic upkeep task is to a scrape) (samples are distinct powers of two so every partial sum identifies the set of samples counted); distinct = distinct rendered line sets / outcomes",
+        rule: "E3: for each of 6 builder configurations (default summaries, global buckets, per-metric override, global labels with one overridden by a key label, custom quantiles, unit suffix) every sequence of the stated depth over 19 operations (counter increment/absolute, gauge set/increment incl. NaN, -0.0, 1e300, histogram record, first/second description of a name with and without a unit, render, run_upkeep; keys incl. equal keys built differently) on a fresh real PrometheusRecorder, plus a final render; every render is done twice (same line set, quantile lines aside), parsed by the strict independent parser and compared with the reference (families, series label sets = global overridden by key, counter totals, gauge bit round trip, _count/_sum conservation, bucket counts, HELP and unit suffix of the first description); a 200-sample multi-block history; E1: all SC interleavings of record() threads with a drainer thread (render, run_upkeep, render), also with 63 samples recorded beforehand (block hand-over) and with a second draining thread (run_upkeep x2, what the periodic upkeep task is to a scrape) (samples are distinct powers of two so every partial sum identifies the set of samples counted); distinct = distinct rendered line sets / outcomes",
         assumptions: &["E1: sequential consistency, one registry shard", "dyadic sample values so that sums are exact in any order"],
         parts,
         run,
